@@ -839,10 +839,19 @@ class BeliefPropagation(Inference):
         Daphne Koller and Nir Friedman.
         """
         # Initialize clique beliefs as well as sepset beliefs
-        self.clique_beliefs = {
-            clique: self.junction_tree.get_factors(clique)
-            for clique in self.junction_tree.nodes()
-        }
+        # A clique's initial belief is the product of all the factors attached to it
+        # (a user-built junction tree may hold several factors on one clique).
+        self.clique_beliefs = {}
+        for clique in self.junction_tree.nodes():
+            clique_factors = [
+                factor
+                for factor in self.junction_tree.get_factors()
+                if set(factor.scope()) == set(clique)
+            ]
+            if len(clique_factors) > 1:
+                self.clique_beliefs[clique] = factor_product(*clique_factors)
+            else:
+                self.clique_beliefs[clique] = self.junction_tree.get_factors(clique)
         self.sepset_beliefs = {
             frozenset(edge): None for edge in self.junction_tree.edges()
         }
